@@ -14,12 +14,15 @@ CLAIMS = {
     'C02': dict(mods='StamStore.tla', text='TLC checks NoDangling and Monotone on the bounded model (chains, diamonds, shared data, metadata targets); removal steps of generated histories are validated against RemoveAnnotation/RemoveResource/RemoveDataset/RemoveData/RemoveKey of the specification, and after each step an exercise pass (iterate, query, serialise) must succeed.'),
     'C03': dict(mods='StamStore.tla, StamApi.tla', text='TLC checks IdMapExact on the bounded model; id maps dumped from the real store must equal the specification\'s after every step (duplicate ids, id-less items, removals, strip-ids); Lookup events compare resolution of ids, handles and temporary ids with Resolve().'),
     'C04': dict(mods='StamOffsets.tla, StamStore.tla, StamRead.tla', text='Annotate with every cursor pair (both alignments, out-of-range, inverted, zero-width, positive end-aligned) against every resource (incl. empty text, 1-4 byte characters) and relative to annotations nested to depth 3 must be accepted exactly when OffValid holds and store exactly ResolveIn; text selection by offset on resources, ranges and annotations, the text of every annotation and the offsets reported in all four modes must equal StamOffsets (Report re-resolves to the same range).'),
+    'C05': dict(mods='StamSerial.tla, StamStore.tla', text='RoundTrip is an action of the store state machine: every generated history is extended with (and interrupted by) STAM JSON round trips - to a string (pretty and compact), to a file, and with resources and/or datasets in stand-off @include files - after which the history continues on the reloaded store. TLC requires the reloaded state to satisfy every store invariant (StateOK: indices, id maps, no dangling references) and its view (live items by rank: ids, texts, keys, typed values, targets with kind, referenced items, absolute ranges and alignment mode, data references) to equal the view of the specification state; the digest of a second serialisation must equal the first.'),
     'C06': dict(mods='StamRelations.tla, StamRead.tla, MC_Laws.tla', text='TLC checks on MC_Laws that related text under a negated operator is the complement within the known selections; for every set of known selections of a text reachable within the depth (nested, crossing, adjacent, zero-width, touching the end, both halves) and every reference (every range bound or unbound, every pair of known selections, every annotation) the result of related_text under every operator x all x negate x whitespace x limit combination must be exactly the set RelatedTextExpected derives from the relation definitions, each selection once.'),
     'C07': dict(mods='StamText.tla, StamRead.tla, MC_Laws.tla', text='TLC checks on MC_Laws that Split and Segmentation partition the searched range and that matches carry the needle; for every text up to the bound over four alphabets (1-4 byte characters, case pairs, a character whose lower-casing changes length, whitespace), on the whole resource and on every sub-range, find / nocase / split / trim / regex (capture groups, alternation, optional groups) / sequence must return exactly the ranges (and group numbers) StamText derives; segmentation for every set of known selections.'),
     'C10': dict(mods='StamStore.tla', text='TLC checks KeyDataExact and the insert_data sharing rule on the bounded model; datasets, keys, data items and key_data_map of the real store must equal the specification\'s after every step of generated histories.'),
+    'C11': dict(mods='StamSerial.tla, StamStore.tla', text='every generated history (incl. removals leaving tombstones) is extended with and interrupted by CBOR save/load; TLC requires the reloaded projection - items, handles, tombstones, id maps, every raw reverse index row, position index - to be identical to the specification state, all public reverse lookups to answer as before, and the history (further mutations, lookups, text queries) to continue on the loaded store with every later step validated as usual.'),
     'C12': dict(mods='StamText.tla, StamRead.tla', text='Utf8Byte/ByteToChar for every position and byte offset (incl. beyond the text and inside characters) on resources, ranges and annotations must equal ByteOf/CharOf of StamText under milestone intervals 0,1,2,3,7,100, before and after annotations populate the position index; the specification has no configuration variable, so one specification must accept the traces of every configuration (ShrinkToFit is an action that leaves the state unchanged); the position index dump must carry exact byte offsets.'),
     'C13': dict(mods='StamRelations.tla, StamRead.tla, MC_Laws.tla', text='TLC checks the algebraic laws (converses, symmetry, implications of equals, negation = complement, singleton sets = members, embeds/embedded converse on sets) on MC_Laws over all ranges and all sets of up to two ranges; the implementation\'s complete truth table (test / test_set on selections and selection sets) for every range and every set of up to two ranges, every operator and every all x negate x whitespace x limit combination is recomputed by TLC from StamRelations and compared cell by cell (a panic is a cell value no expectation contains).'),
     'C14': dict(mods='StamStore.tla', text='every failing request of the generated histories (unknown items, invalid offsets, duplicate ids, nested complex selectors, missing target, invalid data) must leave the full projection and all API answers equal to the pre-state (UNCHANGED in the specification) and the history continues on the same store.'),
+    'C15': dict(mods='StamSerial.tla, StamStore.tla', text='as C05 for STAM CSV: the view with values reduced to their text (ValText) must be preserved over save/load of the store manifest, dataset, annotation and text files; identifiers come from the plain pool (no list separator); the reloaded store must satisfy StateOK and the history continues on it.'),
 }
 
 NOT_YET = 'check not built yet (work in progress; see DESIGN.md section 10)'
